@@ -638,6 +638,62 @@ example :
        .raised .key) := by
   decide
 
+/-! ## Item and label access is defined on `index`, not on `names`
+
+A model-like object keeps `status`, `iterations` (and a tracer's `trace`) as ordinary container variables: they are in
+`index` but not in `names` (`Store.nonNames`), and `name in obj` (`contains`) speaks about `names`. -/
+
+/-- **Every access path by name is defined exactly on `index`**: a name in the index has a series — whether or not
+    it is a model variable — so all label / slice / position theorems above apply to it; a name outside the index
+    raises KeyError on every read and every write by key, label, label slice or position, and nothing changes.
+    Membership `name in obj` is a different question: it is about `names ⊆ index`. -/
+theorem access_defined_on_index (s : Store) (name : Name) :
+    (name ∈ s.index ↔ ∃ ser, s.get name = some ser) ∧
+    (getItem s name = .raised .key ↔ name ∉ s.index) ∧
+    (name ∉ s.index → ∀ (k : Nat) (a b : Option Nat) (st : Option Int) (i : Int) (v : Operand),
+      getLabel s name k = .raised .key ∧ getLabelSlice s name a b st = .raised .key ∧ getPos s name i = .raised .key ∧
+      step cfg s (.setItem name v) = (s, .raised .key) ∧ step cfg s (.setLabel name k v) = (s, .raised .key) ∧
+      step cfg s (.setLabelSlice name a b st v) = (s, .raised .key) ∧ step cfg s (.setPos name i v) = (s, .raised .key)) ∧
+    (contains s name = true → name ∈ s.index) ∧
+    (∀ x ∈ s.nonNames, contains s x = false) := by
+  refine ⟨⟨get_of_index, fun ⟨ser, h⟩ => index_of_get h⟩, ?_, ?_, ?_, ?_⟩
+  · constructor
+    · intro h hi
+      obtain ⟨ser, hg⟩ := get_of_index hi
+      simp [getItem, hg] at h
+    · intro hi
+      simp [getItem, get_none_of_not_index hi]
+  · intro hi k a b st i v
+    have hg := get_none_of_not_index hi
+    simp [getLabel, getLabelSlice, getPos, step, setItem, setLabel, setLabelSlice, setPos, hg]
+  · intro h
+    simp only [contains, Store.names, List.contains_iff_mem, List.mem_filter] at h
+    exact h.1
+  · intro x hx
+    simp only [contains, Store.names]
+    cases hc : (List.filter (fun x => !s.nonNames.contains x) s.index).contains x with
+    | false => rfl
+    | true =>
+      simp only [List.contains_iff_mem, List.mem_filter] at hc
+      simp at hc
+      exact absurd hx hc.2
+
+/-- Non-vacuity: a model-like store with `status` (str) and `iterations` (int) in front of its model variable `Y`
+    and a `trace` behind it: `'iterations' in obj` is False, yet `obj['iterations', label] = 5` and a label slice on
+    `status` address exactly their cells; a name outside the index raises KeyError. -/
+example :
+    (let s0 : Store := { init [0, 1, 2] .seq false with
+        vars := [("status", ⟨uN 1, [3], [.s "-", .s "-", .s "-"]⟩), ("iterations", ⟨i8, [3], [.i (-1), .i (-1), .i (-1)]⟩),
+                 ("Y", ⟨f8, [3], [.i 0, .i 0, .i 0]⟩), ("trace", ⟨⟨.obj, 0⟩, [3], [.s "<a>", .s "<b>", .s "<c>"]⟩)],
+        nonNames := ["status", "iterations", "trace"] }
+     let s := run Cfg.fixed s0 [.setLabel "iterations" 1 (.scalar (.i 5)),
+        .setLabelSlice "status" (some 1) none none (.scalar (.s "F")), .setLabel "trace" 0 (.scalar (.s "<new>"))]
+     (s.names, contains s "iterations", getItem s "iterations", getItem s "status", getLabel s "trace" 0,
+      (step Cfg.fixed s (.setLabel "nope" 1 (.scalar (.i 5)))).2))
+    = (["Y"], false, .array [3] [.i (-1), .i 5, .i (-1)], .array [3] [.s "-", .s "F", .s "F"], .elem (.s "<new>"),
+       .raised .key) := by
+  decide
+
 /-! ## Variables never share storage
 
 Whole-series assignment stores VALUES: `obj.Y = obj.X`, `obj['Y'] = obj['X']`, a view of `X`, or one caller-owned array
